@@ -23,3 +23,20 @@ SCEN_RULE = ("scenarios: random forest (0-5 layers, names incl. Unicode and pref
              "random population of build/overlay/packages/generated directories and user files, foreign export entries, host mount-table variants (stacked /dev/shm, "
              "separate fs, bind-mounted base path); 3-10 command steps (init/add/remove/rename/rebase/mkdirs/mount/umount/umount -all/shake/chroot/probe) with legal, illegal, "
              "missing and very long names and pretend/force/fault:k/crash:k/user switches. distinct = distinct scenario JSON; non-trivial unless the driver marks it trivial.")
+
+
+def gen_guards(repo, lean, scratch, env):
+    """Regenerate lean/Lc/Generated/Guards.lean from the Go source (tools/extract)."""
+    import os, shutil, subprocess
+    src = os.path.join(os.path.dirname(os.path.dirname(os.path.abspath(__file__))), "tools", "extract")
+    work = os.path.join(scratch, "extract")
+    if not os.path.isdir(work):
+        shutil.copytree(src, work)
+    r = subprocess.run(["go", "run", ".", repo], cwd=work, env=env, stdout=subprocess.PIPE, stderr=subprocess.PIPE, text=True)
+    if r.returncode != 0:
+        return "extractor failed: " + r.stderr[-2000:]
+    target = os.path.join(lean, "Lc", "Generated", "Guards.lean")
+    old = open(target).read() if os.path.exists(target) else ""
+    if old != r.stdout:
+        open(target, "w").write(r.stdout)
+    return None
